@@ -318,3 +318,44 @@ func TestGovcReplayErrorReplyLineBreak(t *testing.T) {
 `
 	return "proc/redis", "TestGovcReplayErrorReplyLineBreak", src, true
 }
+
+func init() {
+	replayGens["redis.(*decoder).decode"] = replayDecoderDepth
+	replayGens["redis.(*decoder).decodeResp"] = replayDecoderDepth
+	replayGens["redis.(*decoder).decodeArray"] = replayDecoderDepth
+}
+
+// arbitrarily deep array nesting drives the recursive decoder as deep as the peer wishes
+func replayDecoderDepth(rc *ReplayCtx) (string, string, string, bool) {
+	if rc.o.Kind != "recursion" {
+		return "", "", "", false
+	}
+	src := `package redis
+
+import (
+	"bytes"
+	"runtime/debug"
+	"testing"
+)
+
+func TestGovcReplayDecoderDepth(t *testing.T) {
+	// 4 bytes of input per nesting level; the stack limit is lowered from 1 GB to 32 MB so that the
+	// overflow (a fatal error that kills the process, it cannot be recovered) shows after 2 MB of input
+	debug.SetMaxStack(32 << 20)
+	depth := 500000
+	in := bytes.Repeat([]byte("*1\r\n"), depth)
+	in = append(in, []byte(":1\r\n")...)
+	dec := newDecoder(bytes.NewReader(in), 4096)
+	v, err := dec.Decode()
+	if err == nil {
+		n := 0
+		for v != nil && v.Type == Array && len(v.Array) == 1 {
+			v = &v.Array[0]
+			n++
+		}
+		t.Fatalf("REPLAY-VIOLATION the decoder followed %d levels of array nesting chosen by the peer (recursion depth, stack and memory use are not bounded by any protocol limit)", n)
+	}
+}
+`
+	return "proc/redis", "TestGovcReplayDecoderDepth", src, true
+}
